@@ -17,7 +17,8 @@ Local Open Scope Z_scope.
 Definition st := (Z * Z * Z * Z)%type.
 
 (* while (r1 >= k) { q = r0/r1; (r0,r1) <- (r1, r0 - r1*q); (t0,t1) <- (t1, t0 - t1*q); }
-   lines 53-74; None = fuel exhausted *)
+   lines 58-79; None = fuel exhausted.  For k <= 0 the C++ reaches r1 = 0 >= k and divides by zero (GMP aborts); the model
+   then cycles (Z.quot r0 0 = 0) until the fuel is gone and answers None as well: every theorem assumes 1 <= k. *)
 Fixpoint loop (fuel : nat) (k r0 t0 r1 t1 : Z) : option st :=
   if r1 >=? k then
     match fuel with
@@ -105,12 +106,26 @@ Definition RR7 (f m k : Z) (forcereduce recursive : bool) : option res :=
 (* lines 233-236: RationalReconstruction(a,b,x,m) *)
 Definition RR4 (x m : Z) : option res := ratrecon x m (Z.sqrt m) true.
 
-(* lines 237-246: RationalReconstruction(a,b,x,m,a_bound,b_bound)   (commit 68125ac)
-     bool res = ratrecon(a,b,x,m,(bound>a_bound?bound:a_bound),true,false);  return res && (b <= b_bound); *)
+(* lines 243-252: RationalReconstruction(a,b,x,m,a_bound,b_bound)   (body of /repo as of commit 68125ac / 95a3d70)
+     Integer bound = x/bb;
+     bool res = ratrecon(a,b,x,m,(bound>a_bound?bound:a_bound),true,false);  return res && (b <= bb);
+   `x/bb` is mpz_tdiv_q: for b_bound = 0 GMP raises a division by zero (the process aborts), so the model is PARTIAL there:
+   None.  (None is also "fuel exhausted"; C11_rr6_total shows that for m >= 2, the bound in use >= 1 and b_bound <> 0 the
+   result is Some.)  This body does NOT honour the numerator bound of the header (`numbound`): see RR6_numbound_refuted. *)
 Definition RR6 (x m a_bound b_bound : Z) : option res :=
+  if b_bound =? 0 then None else
   let bound := Z.quot x b_bound in
   let k := if bound >? a_bound then bound else a_bound in
   match ratrecon x m k true with
+  | None => None
+  | Some (ok, a, b) => Some (ok && (b <=? b_bound), a, b)
+  end.
+
+(* the repaired body (frag/C11.fix-2.diff): the numerator bound handed to ratrecon is the caller's numbound
+     bool res = ratrecon(a,b,x,m,a_bound,true,false);  return res && (b <= bb);
+   The check reads givratreconstruct.C on every run and compares the implementation with RR6 or RR6f accordingly. *)
+Definition RR6f (x m a_bound b_bound : Z) : option res :=
+  match ratrecon x m a_bound true with
   | None => None
   | Some (ok, a, b) => Some (ok && (b <=? b_bound), a, b)
   end.
